@@ -103,6 +103,9 @@ pub struct World {
     pub none: Permissions,
     pub subs: Vec<Option<SubStream>>,
     pub qsubs: Vec<Option<QueryStream>>,
+    pub viss: Option<crate::fam_viss::VissConn>,
+    pub scopes: Vec<String>,
+    pub ms_windows: bool,
     pub provs: Vec<(Arc<Mutex<Vec<Vec<(i32, DataValue)>>>>, Arc<AtomicBool>)>,
     pub ids: Vec<i32>,
     pub windows: Vec<(SystemTime, SystemTime)>,
@@ -120,6 +123,9 @@ impl World {
             none: databroker::permissions::ALLOW_NONE.clone(),
             subs: vec![],
             qsubs: vec![],
+            viss: None,
+            scopes: vec![],
+            ms_windows: false,
             provs: vec![],
             ids: vec![],
             windows: vec![],
@@ -228,7 +234,9 @@ fn drain_queries(w: &mut World) -> Vec<Vec<Tok>> {
 pub async fn step(w: &mut World, l: &[Tok]) -> Vec<Vec<Tok>> {
     let mut start = SystemTime::now();
     if let Some((_, e)) = w.windows.last() {
-        while start <= *e {
+        let ms = |t: SystemTime| t.duration_since(std::time::UNIX_EPOCH).map(|d| d.as_millis()).unwrap_or(0);
+        // VISS timestamps have millisecond resolution: there the windows are separated by a millisecond boundary
+        while start <= *e || (w.ms_windows && ms(start) <= ms(*e)) {
             start = SystemTime::now();
         }
     }
@@ -237,6 +245,9 @@ pub async fn step(w: &mut World, l: &[Tok]) -> Vec<Vec<Tok>> {
         Ok(o) => o,
         Err(_) => vec![vec![-77]],
     };
+    if w.ms_windows {
+        crate::fam_viss::after_op(w).await;
+    }
     let end = SystemTime::now();
     w.windows.push((start, end));
     // make operation windows disjoint: the clock must have advanced before the next operation starts
@@ -264,6 +275,7 @@ async fn step_inner(w: &mut World, l: &[Tok], start: SystemTime) -> Vec<Vec<Tok>
             match build_perms(&scope, exp) {
                 Some(p) => {
                     w.perms.push(p);
+                    w.scopes.push(scope.clone());
                     vec![vec![1]]
                 }
                 None => vec![vec![0]],
@@ -552,6 +564,7 @@ async fn step_inner(w: &mut World, l: &[Tok], start: SystemTime) -> Vec<Vec<Tok>
                 Err(databroker::broker::QueryError::InternalError) => vec![vec![1, 10]],
             }
         }
+        50..=55 => crate::fam_viss::step_viss(w, op, &mut c, start).await,
         41 => {
             let Some(h) = c.next() else { return bad };
             if let Some(s) = w.qsubs.get_mut(h as usize) {
@@ -565,6 +578,10 @@ async fn step_inner(w: &mut World, l: &[Tok], start: SystemTime) -> Vec<Vec<Tok>
 }
 
 pub fn run_case(case: &[Vec<Tok>]) -> Vec<Vec<Tok>> {
+    run_case_with(case, false)
+}
+
+pub fn run_case_with(case: &[Vec<Tok>], ms_windows: bool) -> Vec<Vec<Tok>> {
     let rt = rt();
     let mut delay = Duration::from_millis(40);
     for _attempt in 0..6 {
@@ -572,6 +589,7 @@ pub fn run_case(case: &[Vec<Tok>]) -> Vec<Vec<Tok>> {
         // Pending spuriously after 128 operations inside this single task
         let (out, ok) = rt.block_on(tokio::task::unconstrained(async {
             let mut w = World::new(delay);
+            w.ms_windows = ms_windows;
             let mut out = Vec::new();
             for l in case {
                 out.extend(step(&mut w, l).await);
